@@ -49,7 +49,10 @@ CHECKS = {
     "C06": ("TransitRecords.tla: TLC checks PrefixInv / NothingAfterTamper / HungUpWhenBad / NoReadLeftBehind / ConsumerTruth under every "
             "frame-level adversary operation; a covering family (every operation x position x records already received) and "
             "simulated behaviours are executed on real, really-negotiated Connection pairs in both directions under five chunkings "
-            "with byte-level concretisation of flips, queue / loop / consumer / back-pressure-consumer readers; TransitObs.tla decides", "3/C06"),
+            "with byte-level concretisation of flips, queue / loop / consumer / back-pressure-consumer readers; the Mixed configuration "
+            "(single records read and consumers expecting the bytes of the next 0..2 records taking turns, as a file transfer uses the "
+            "connection) is model-checked and walks of a sequential application over real Connection pairs are validated against it; "
+            "TransitObs.tla decides", "3/C06, 7.2"),
     "C07": ("Transit.tla: TLC checks AtMostOneGo / GoOnlyAfterRH / ReceiverNeedsGo / SameLink / KeyHoldersOnly / OthersClosed / "
             "DeadlineDecides (+ NoHang liveness) for twelve contender configurations (direct both ways, relays, strangers, wrong-key "
             "peers, a dishonest relay, a key-holding sender of another implementation that says nevermind, units coalesced in one "
